@@ -22,6 +22,9 @@ const (
 	fence2Tag = 0xFFF1
 	flushOld  = 0xFFF5 // oldtag of the generated Tflush frames: never in use
 	firstFid  = 100
+	// the smallest msize go9p's server accepts in a Tversion (9P's IOHDRSZ);
+	// a generator bound only, the replies are predicted from the stream
+	minNegoMsize = 24
 )
 
 // built is a request stream together with the fid preparation it needs.
@@ -72,11 +75,23 @@ func createFull(msize uint32, dotu bool) int {
 }
 
 func buildStream(c *Case) (*built, error) {
-	if c.Msize < 64 || len(c.Frames) == 0 || len(c.Frames) > 400 || int(c.TagBase)+len(c.Frames) >= fenceTag {
+	minMsize := uint32(64) // the preparation requests have to fit
+	if c.SrvMsize != 0 {
+		minMsize = minNegoMsize // the preparation runs at SrvMsize
+	}
+	if c.Msize < minMsize || len(c.Frames) == 0 || len(c.Frames) > 400 || int(c.TagBase)+len(c.Frames) >= fenceTag ||
+		(c.SrvMsize != 0 && (c.SrvMsize <= c.Msize || c.SrvMsize < 64)) || c.Maxpend < 0 {
 		return nil, fmt.Errorf("harness: bad server case")
 	}
 	b := &built{byTag: map[uint16]*pred{}}
 	var msgs []*ref9p.Msg
+	if c.SrvMsize != 0 {
+		ver := "9P2000"
+		if c.Dotu {
+			ver = "9P2000.u"
+		}
+		msgs = append(msgs, &ref9p.Msg{Type: ref9p.Tversion, Tag: ref9p.NOTAG, Msize: c.Msize, Version: ver})
+	}
 	for i, f := range c.Frames {
 		m, err := b.mkFrame(c, i, f)
 		if err != nil {
@@ -97,18 +112,33 @@ func buildStream(c *Case) (*built, error) {
 	if err != nil || len(rest) != 0 || len(frames) != len(msgs) {
 		return nil, fmt.Errorf("harness: the generated stream does not split into its frames")
 	}
+	// the msize in force changes at the stream's Tversion (class lower)
+	msize := c.Msize
+	if c.SrvMsize != 0 {
+		msize = c.SrvMsize
+	}
 	for i, f := range frames {
-		if len(f) > int(c.Msize) {
-			return nil, fmt.Errorf("harness: frame %d has %d bytes, msize %d", i, len(f), c.Msize)
+		if len(f) > int(msize) {
+			return nil, fmt.Errorf("harness: frame %d has %d bytes, msize %d", i, len(f), msize)
 		}
 		m, _, err := ref9p.Decode(f, c.Dotu)
 		if err != nil {
 			return nil, fmt.Errorf("harness: frame %d: %v", i, err)
 		}
-		p := &pred{idx: i, tag: m.Tag, req: ref9p.Canon(m, c.Dotu), impl: m.Type != ref9p.Tflush, hold: m.Type == ref9p.Twrite}
+		// With Maxpend set nothing is held: a server that admits only Maxpend
+		// requests at a time must not be made to wait for the harness.
+		p := &pred{idx: i, tag: m.Tag, req: ref9p.Canon(m, c.Dotu), impl: m.Type != ref9p.Tflush && m.Type != ref9p.Tversion, hold: m.Type == ref9p.Twrite && c.Maxpend == 0}
 		p.who = whoOf(p.req)
 		var a *ref9p.Msg
-		if m.Type == ref9p.Tflush {
+		if m.Type == ref9p.Tversion {
+			if i != 0 || c.SrvMsize == 0 {
+				return nil, fmt.Errorf("harness: Tversion at frame %d", i)
+			}
+			if m.Msize < msize {
+				msize = m.Msize
+			}
+			a = &ref9p.Msg{Type: ref9p.Rversion, Msize: msize, Version: m.Version}
+		} else if m.Type == ref9p.Tflush {
 			a = &ref9p.Msg{Type: ref9p.Rflush}
 		} else {
 			// every fid of the stream names a plain file except the create targets, whose type is not reported back
@@ -117,14 +147,17 @@ func buildStream(c *Case) (*built, error) {
 		am := *a
 		am.Tag = m.Tag
 		p.reply = ref9p.Encode(&am, c.Dotu)
-		if len(p.reply) > int(c.Msize) {
-			return nil, fmt.Errorf("harness: predicted reply to frame %d has %d bytes, msize %d", i, len(p.reply), c.Msize)
+		if len(p.reply) > int(msize) {
+			return nil, fmt.Errorf("harness: predicted reply to frame %d has %d bytes, msize %d", i, len(p.reply), msize)
 		}
 		if _, dup := b.byTag[p.tag]; dup {
 			return nil, fmt.Errorf("harness: tag %d used twice", p.tag)
 		}
 		b.byTag[p.tag] = p
 		b.preds = append(b.preds, p)
+	}
+	if msize != c.Msize {
+		return nil, fmt.Errorf("harness: msize in force at the end of the stream is %d, case says %d", msize, c.Msize)
 	}
 	return b, nil
 }
@@ -401,7 +434,11 @@ func (r *srvRun) batch(ms []*ref9p.Msg) error {
 }
 
 func runServer(c *Case, b *built, cuts []int) (*obs, error) {
-	sv := script.NewServer(script.Config{Msize: c.Msize, Dotu: c.Dotu})
+	srvMsize := c.Msize
+	if c.SrvMsize != 0 {
+		srvMsize = c.SrvMsize
+	}
+	sv := script.NewServer(script.Config{Msize: srvMsize, Dotu: c.Dotu, Maxpend: c.Maxpend})
 	ctl := &hookLog{}
 	defer ctl.install()()
 	end := sv.Dial("c13")
@@ -425,11 +462,11 @@ func runServer(c *Case, b *built, cuts []int) (*obs, error) {
 		ver = "9P2000.u"
 	}
 	cl.Timeout = hangAfter
-	rv, err := cl.Version(c.Msize, ver)
+	rv, err := cl.Version(srvMsize, ver)
 	if err == rawc.ErrTimeout {
 		return nil, hangErr("prologue: Tversion unanswered")
 	}
-	if err != nil || rv.Type != ref9p.Rversion || rv.Msize != c.Msize || cl.Dotu != c.Dotu {
+	if err != nil || rv.Type != ref9p.Rversion || rv.Msize != srvMsize || cl.Dotu != c.Dotu {
 		return nil, fmt.Errorf("prologue: Tversion: %v %+v", err, rv)
 	}
 	if err := r.batch([]*ref9p.Msg{{Type: ref9p.Tattach, Fid: 0, Afid: ref9p.NOFID, Uname: "alice", Nuname: 1001}}); err != nil {
@@ -444,6 +481,22 @@ func runServer(c *Case, b *built, cuts []int) (*obs, error) {
 	for _, p := range b.preds {
 		if p.hold {
 			sv.S.Set(script.Key(p.req), script.Behav{Hold: true})
+		}
+	}
+	if c.SrvMsize != 0 {
+		// nothing may be outstanding when the stream's Tversion arrives (it cancels what is)
+		pc := sv.S.Conn(script.ConnID("c13"))
+		if pc == nil {
+			return nil, fmt.Errorf("harness: connection not registered")
+		}
+		for start := time.Now(); ; {
+			if n, _ := pc.VerifCounts(); n == 0 {
+				break
+			}
+			if time.Since(start) > hangAfter {
+				return nil, hangErr("preparation requests still registered")
+			}
+			time.Sleep(200 * time.Microsecond)
 		}
 	}
 	logStart := len(sv.S.Log())
